@@ -1,18 +1,21 @@
 #!/bin/sh
-# dev tool: seedimport.sh C05  -> copies /tmp/seed_out/C05/{patch,demo,meta}_{A,B} into /verif/seeded/C05_{A,B}/
-P=$1
+# dev tool: seedimport.sh C05 [round]  -> copies /tmp/seed_out<round>/C05/{patch,demo,meta}_{A,B} into /verif/seeded/
+# round 1 (default): C05_A, C05_B;  round 2: C05_C, C05_D
+P=$1; R=${2:-1}
+SRC=/tmp/seed_out; [ "$R" = "2" ] && SRC=/tmp/seed_out2
 for v in A B; do
-  [ -f /tmp/seed_out/$P/patch_$v.diff ] || continue
-  d=/verif/seeded/${P}_$v; mkdir -p $d
-  cp /tmp/seed_out/$P/patch_$v.diff $d/patch.diff
-  cp /tmp/seed_out/$P/demo_$v.py $d/demo.py
-  /venv/bin/python - "$P" "$v" <<'PY'
+  [ -f $SRC/$P/patch_$v.diff ] || continue
+  t=$v; [ "$R" = "2" ] && { [ $v = A ] && t=C || t=D; }
+  d=/verif/seeded/${P}_$t; mkdir -p $d
+  cp $SRC/$P/patch_$v.diff $d/patch.diff
+  cp $SRC/$P/demo_$v.py $d/demo.py
+  /venv/bin/python - "$P" "$v" "$SRC" "$t" "$R" <<'PY'
 import json,sys
-P,v=sys.argv[1:3]
-try: m=json.load(open(f"/tmp/seed_out/{P}/meta_{v}.json"))
+P,v,SRC,t,R=sys.argv[1:6]
+try: m=json.load(open(f"{SRC}/{P}/meta_{v}.json"))
 except Exception as e: m={"summary":f"(meta unreadable: {e})"}
-m["property"]=P; m["origin"]="fresh sub-agent given only the property text and a scratch worktree"
-json.dump(m,open(f"/verif/seeded/{P}_{v}/meta.json","w"),indent=1)
+m["property"]=P; m["round"]=int(R); m["origin"]="fresh sub-agent given only the property text and a scratch worktree"
+json.dump(m,open(f"/verif/seeded/{P}_{t}/meta.json","w"),indent=1)
 PY
 done
-ls /verif/seeded | grep $P
+ls /verif/seeded | grep $P | tr '\n' ' '; echo
